@@ -25,8 +25,8 @@ var components = map[string]string{
 
 func (Engine) Plan(property, tier string) core.Plan {
 	p := core.Plan{Level: "exploration", MaxWall: 150, Components: components}
-	runs := map[string]int{"C01": 700, "C02": 1400, "C03": 1600, "C04": 1400, "C05": 1400, "C06": 1400, "C07": 1400, "C08": 450,
-		"C09": 900, "C10": 1400, "C11": 700, "C12": 900, "C13": 160, "C14": 700, "C17": 1400}[property]
+	runs := map[string]int{"C01": 2400, "C02": 4800, "C03": 5600, "C04": 4800, "C05": 4800, "C06": 4800, "C07": 4800, "C08": 1600,
+		"C09": 3200, "C10": 4800, "C11": 2400, "C12": 900, "C13": 160, "C14": 700, "C17": 4800}[property]
 	if runs == 0 {
 		runs = 800
 	}
